@@ -30,14 +30,17 @@ def run_one(exe, tdir, tag, args, timeout=60):
                     pass
             elif l.startswith("outstanding"):
                 evs.append({"ev": "Outstanding", "txt": l})
+            elif l.startswith("site "):
+                f = l.split()
+                evs.append({"ev": "Site", "addr": f[1], "count": int(f[2]), "ks": [int(x) for x in f[3:]]})
         os.unlink(pf + ".out")
     os.unlink(pf)
     return rc, log, evs
 
 
 def run(res):
-    res.cov["rule"] = ("fault points = (API call, K) with K the index of the fallible primitive that fails; quick: every K up to 60, the last 40 "
-                       "and a seeded sample per call; thorough: every K of set_parameter and init and a 10% sample of init_handle; non-trivial = the fault fired")
+    res.cov["rule"] = ("fault points = (API call, K) with K the index of the fallible primitive that fails; quick: every K up to 60, the last 40, "
+                       "3 invocations (first, middle, last) of every distinct call site and a seeded sample per call; thorough: every K of set_parameter and init and a 10% sample of init_handle; non-trivial = the fault fired")
     res.assumptions += ["single fault per session", "encoder only; 64x64, preset 8, 2 logical processors",
                         "the ledger covers everything allocated through the wrapped primitives"]
     r = vlib.tlc("CtorUnwind", "CtorUnwind.cfg", timeout=900)
@@ -52,8 +55,12 @@ def run(res):
     tdir = vlib.tmpdir()
     # 1. how many fallible primitives does each call issue?
     totals = {}
+    site_ks = {}
+    per_site = 3 if res.tier == "quick" else 9
     for idx in range(3):
-        rc, log, evs = run_one(exe, tdir, "count%d" % idx, ["--count", str(idx), "--lp", "2"])
+        rc, log, evs = run_one(exe, tdir, "count%d" % idx, ["--count", str(idx), "--sites", str(per_site), "--lp", "2"], timeout=300)
+        site_ks[idx] = sorted(set(k for e in evs if e["ev"] == "Site" for k in e["ks"]))
+        res.cov.setdefault("distinct_call_sites", {})[PROG[idx]] = len([e for e in evs if e["ev"] == "Site"])
         c = [e for e in evs if e["ev"] == "Call" and e["idx"] == idx]
         if not c or c[0]["fallible"] < 0:
             raise vlib.ModelFailure("could not count fallible calls of %s" % PROG[idx])
@@ -70,6 +77,8 @@ def run(res):
                 ks |= set(rng.sample(range(1, tot + 1), min(tot, tot // 10)))
             else:
                 ks |= set(range(1, tot + 1))
+        # site-directed: for every distinct call site of a fallible primitive, faults spread over its invocations
+        ks |= set(k for k in site_ks.get(idx, []) if 1 <= k <= tot)
         points += [(idx, k) for k in sorted(ks)]
     res.cov["exhaustive"] = False
 
